@@ -25,7 +25,7 @@ class Layout:
         self.items, self.varargs = items, varargs
 
     def children(self):
-        return [(it[1], it[2]) for it in self.items if it[0] == "child"]
+        return [(it[1], it[2]) for it in self.items if it[0] == "child" and isinstance(it[1], int)]
 
 
 class PrintReader:
@@ -66,7 +66,10 @@ class PrintReader:
     def kinds(self):
         return [lb for labels, _ in self.items for lb in labels if lb and lb != "default"]
 
-    def layout(self, kind):
+    def layout(self, kind, tree=None):
+        """tree: (kind, [child trees], name) - conditions on the kinds of children (`get(0).get_kind() == AND`) are
+        decided on it; without a tree every child counts as an IDENTIFIER."""
+        self.tree = tree
         start = None
         for i, (labels, _) in enumerate(self.items):
             if kind in labels:
@@ -160,22 +163,80 @@ class PrintReader:
             return True
         return False
 
-    def kind_cond(self, c):
+    def kind_cond(self, c, depth=0):
         """Truth value of a condition that depends only on the kind of the printed node, for self.kind; None if
         it depends on anything else."""
         k = c.get("k")
-        if k == "cast":
-            return self.kind_cond(c["e"])
+        if k in ("cast", "paren"):
+            return self.kind_cond(c["e"], depth)
         if k == "bool":
             return bool(c["v"])
         if k == "un" and c.get("op") == "!":
-            v = self.kind_cond(c["e"])
+            v = self.kind_cond(c["e"], depth)
             return None if v is None else not v
+        if k == "call" and c.get("ck") in ("free", "static") and c.get("fn"):
+            v = self.eval_predicate(c, depth)
+            if v is not None:
+                return v
+        if k == "call" and c.get("name") in ("is_integer", "is_integral") and not c.get("args"):
+            # the type of an integer literal of the rendered tree
+            r = c.get("recv") or {}
+            if r.get("k") == "call" and r.get("name") == "get_type" and r.get("recv") is not None:
+                pth = self.node_path(r["recv"])
+                t = getattr(self, "tree", None)
+                if pth is not None and t is not None:
+                    try:
+                        for i_ in pth:
+                            t = t[1][i_]
+                        if t[0] == "CONSTANT":
+                            int(t[2])
+                            return True
+                    except (IndexError, TypeError, ValueError):
+                        pass
+        if k == "call" and c.get("name") == "is" and c.get("args") and c["args"][0].get("dk") == "enumerator":
+            # <identifier node>.get_symbol().get_type().is(T): the leaves of a rendered tree are plain variables
+            r = c.get("recv") or {}
+            if r.get("k") == "call" and r.get("name") == "get_type":
+                rr = r.get("recv") or {}
+                if rr.get("k") == "call" and rr.get("name") == "get_symbol":
+                    rr = rr.get("recv")
+                pth = self.node_path(rr) if rr is not None else None
+                if pth is not None and self.node_kind(pth) == "IDENTIFIER" and c["args"][0]["name"] in self.SPECIAL_TYPE_KINDS:
+                    return False
+        if k == "call" and c.get("ck") == "op" and c.get("op") in ("!=", "==") and len(c.get("args", [])) + (c.get("recv") is not None) == 2:
+            # <identifier node>.get_symbol() != symbol_t(): a leaf of a rendered tree has a symbol
+            ops = ([c["recv"]] if c.get("recv") is not None else []) + c.get("args", [])
+            for x, y in ((ops[0], ops[1]), (ops[1], ops[0])):
+                if x.get("k") == "call" and x.get("name") == "get_symbol" and y.get("k") == "construct" and not y.get("args"):
+                    pth = self.node_path(x.get("recv")) if x.get("recv") is not None else None
+                    if pth is not None and self.node_kind(pth) == "IDENTIFIER":
+                        return c["op"] == "!="
         if k == "bin" and c.get("op") in ("&&", "||"):
-            a, b = self.kind_cond(c["lhs"]), self.kind_cond(c["rhs"])
+            a, b = self.kind_cond(c["lhs"], depth), self.kind_cond(c["rhs"], depth)
             if c["op"] == "&&":
                 return False if (a is False or b is False) else (True if a and b else None)
             return True if (a is True or b is True) else (False if a is False and b is False else None)
+        if k == "bin" and c.get("op") in ("<", "<=", ">", ">=", "==", "!="):
+            # the value of a constant child against an integer literal: `get(0).get_value() < 0`
+            for x, y, flip in ((c["lhs"], c["rhs"], False), (c["rhs"], c["lhs"], True)):
+                while x.get("k") in ("cast", "paren"):
+                    x = x["e"]
+                while y.get("k") in ("cast", "paren"):
+                    y = y["e"]
+                if x.get("k") == "call" and x.get("name") == "get_value" and x.get("recv") is not None and y.get("k") == "int":
+                    pth = self.node_path(x["recv"])
+                    t = getattr(self, "tree", None)
+                    if pth is not None and t is not None:
+                        try:
+                            for i_ in pth:
+                                t = t[1][i_]
+                            v = int(t[2]) if t[0] == "CONSTANT" else None
+                        except (IndexError, TypeError, ValueError):
+                            v = None
+                        if v is not None:
+                            a_, b_ = (y["v"], v) if flip else (v, y["v"])
+                            return {"<": a_ < b_, "<=": a_ <= b_, ">": a_ > b_, ">=": a_ >= b_, "==": a_ == b_,
+                                    "!=": a_ != b_}[c["op"]]
         if k == "bin" and c.get("op") in ("==", "!=", "<", "<=", ">", ">="):
             # a comparison of precedences, each a function of the printed node's kind only
             try:
@@ -189,6 +250,13 @@ class PrintReader:
                     return {"==": va == vb, "!=": va != vb, "<": va < vb, "<=": va <= vb, ">": va > vb,
                             ">=": va >= vb}[c["op"]]
         if k == "bin" and c.get("op") in ("==", "!="):
+            for x, y in ((c["lhs"], c["rhs"]), (c["rhs"], c["lhs"])):
+                if x.get("k") == "call" and x.get("name") == "get_kind" and x.get("recv") is not None and \
+                        y.get("k") == "ref" and y.get("dk") == "enumerator":
+                    pth = self.node_path(x["recv"])
+                    if pth or (pth == () and getattr(self, "env", None)):
+                        eq = self.node_kind(pth) == y["name"]
+                        return eq if c["op"] == "==" else not eq
             for x, y in ((c["lhs"], c["rhs"]), (c["rhs"], c["lhs"])):
                 if self._is_kind_expr(x) and y.get("k") == "ref" and y.get("dk") == "enumerator":
                     eq = y["name"] == self.kind
@@ -273,8 +341,100 @@ class PrintReader:
                 return b
         return None
 
+    def child_path(self, e):
+        """get(i).get(j) / (*this)[i][j] -> (i, j); None if e is not a descendant of the printed node"""
+        path = []
+        while True:
+            while e.get("k") in ("cast", "paren") or (e.get("k") == "construct" and len(e.get("args", [])) == 1):
+                e = e["e"] if e.get("k") != "construct" else e["args"][0]
+            if e.get("k") == "call" and e.get("name") in ("get", "operator[]") and e.get("args") and \
+                    e["args"][-1].get("k") == "int":
+                path.append(e["args"][-1]["v"])
+                r = e.get("recv")
+                if r is None and e.get("name") == "operator[]" and len(e["args"]) == 2:
+                    r = e["args"][0]
+                base = self._base_path(r)
+                if base is not None:
+                    return base + tuple(reversed(path))
+                e = r
+                continue
+            return None
+
+    def _base_path(self, r):
+        """path of the node an access chain starts from: () for this / *this / an implicit receiver, the bound path for
+        a parameter of a predicate helper being evaluated"""
+        if r is None:
+            return () if not getattr(self, "env", None) else None
+        while r.get("k") in ("cast", "paren"):
+            r = r["e"]
+        env = getattr(self, "env", None) or {}
+        if r.get("k") == "ref" and r.get("name") in env:
+            return env[r["name"]]
+        if env:
+            return None
+        if r.get("k") == "this" or (r.get("k") == "un" and r.get("op") == "*" and (r.get("e") or {}).get("k") == "this"):
+            return ()
+        return None
+
+    def node_path(self, e):
+        """path of the node an expression denotes: *this, a parameter, or a get(i) chain on one of them"""
+        b = self._base_path(e)
+        if b is not None and e is not None:
+            return b
+        return self.child_path(e) if e is not None else None
+
+    # type kinds a plain variable (what the rendered trees use as leaves) does not have
+    SPECIAL_TYPE_KINDS = {"PROCESS_SET", "PROCESS", "FUNCTION", "FUNCTION_EXTERNAL", "INSTANCE", "LSC_INSTANCE", "TYPEDEF",
+                          "LOCATION", "LOCATION_EXPR", "BRANCHPOINT", "INSTANCE_LINE", "MESSAGE", "CONDITION", "UPDATE",
+                          "LABEL", "RECORD", "ARRAY", "CHANNEL", "CLOCK", "STRING", "DOUBLE"}
+
+    def eval_predicate(self, call, depth=0):
+        """Value of `helper(<node>)` for the tree being printed, where helper is a function of this file that returns
+        bool and looks only at kinds along get(i) chains and at the symbol type of identifiers: the body is interpreted
+        on the tree (leaves are plain integer variables).  None when anything else is involved."""
+        if depth > 12 or call.get("ck") not in ("free", "static") or len(call.get("args", [])) != 1:
+            return None
+        pth = self.node_path(call["args"][0])
+        if pth is None:
+            return None
+        for fn in self.F.fns(call.get("fn") or ""):
+            if fn.get("body") is None or fn.get("file") != self.fn.get("file") or len(fn["params"]) != 1 or \
+                    (fn.get("ret") or "") not in ("bool", "_Bool"):
+                continue
+            saved = getattr(self, "env", None)
+            self.env = {fn["params"][0]["name"]: pth}
+            try:
+                for st in fn["body"].get("s", []):
+                    if st.get("k") == "if" and st.get("else") is None:
+                        c = self.kind_cond(st["c"], depth + 1)
+                        if c is None:
+                            return None
+                        if c:
+                            rets = [x for x in walk(st["then"]) if x.get("k") == "return"]
+                            if len(rets) != 1 or rets[0].get("e") is None:
+                                return None
+                            return self.kind_cond(rets[0]["e"], depth + 1)
+                        continue
+                    if st.get("k") == "return" and st.get("e") is not None:
+                        return self.kind_cond(st["e"], depth + 1)
+                    return None
+            finally:
+                self.env = saved
+        return None
+
+    def node_kind(self, path):
+        t = getattr(self, "tree", None)
+        for i in path:
+            if t is None or i >= len(t[1]):
+                return "IDENTIFIER"
+            t = t[1][i]
+        return t[0] if t is not None else "IDENTIFIER"
+
     def child_index(self, e):
         """get(i) / (*this)[i] -> i"""
+        p = self.child_path(e)
+        if p is not None and len(p) > 1:
+            return p
         while e.get("k") in ("cast",) or (e.get("k") == "construct" and len(e.get("args", [])) == 1):
             e = e["e"] if e.get("k") == "cast" else e["args"][0]
         if e.get("k") == "call" and e.get("name") == "get" and e.get("args") and e["args"][0].get("k") == "int":
@@ -388,6 +548,22 @@ class Tokenizer:
         self.kw = {k: v[0] for k, v in K.map.items()}
         self.G = G
         self.maxlen = max(len(k) for k in self.lit)
+        # numerals with a token of their own: `if (strcmp("2147483648", s) == 0) return T_POS_NEG_MAX;` in a number rule
+        self.special_num = {}
+        for r in L.rules:
+            act = getattr(r, "action", None)
+            if act is None:
+                continue
+            for n in walk(act):
+                if n.get("k") == "if":
+                    for c in calls(n["c"]):
+                        if c.get("name") == "strcmp":
+                            for x in walk(c):
+                                if x.get("k") == "str" and str(x.get("v", "")).isdigit():
+                                    for rt in walk(n["then"]):
+                                        if rt.get("k") == "return" and rt.get("e") is not None:
+                                            from ..lexer import token_name
+                                            self.special_num[str(x["v"])] = token_name(rt["e"])
 
     def tokens(self, text):
         out = []
@@ -411,7 +587,7 @@ class Tokenizer:
                 j = i
                 while j < len(text) and text[j].isdigit():
                     j += 1
-                out.append("T_NAT")
+                out.append(self.special_num.get(text[i:j].lstrip("0"), "T_NAT"))
                 i = j
                 continue
             m = None
@@ -424,6 +600,82 @@ class Tokenizer:
             out.append(self.lit[m])
             i += len(m)
         return out
+
+
+# ------------------------------------------------------------------------------- tree -> text
+class Renderer:
+    """What expression_t::print writes for a tree (kind, [children], name): the layout of each node is read off the
+    print switch for that node (conditions on the node's kind, its precedence and the kinds of its children decided),
+    parentheses follow the embrace helper and threshold the layout names."""
+
+    def __init__(self, PR):
+        self.PR = PR
+        self.cache = {}
+
+    @staticmethod
+    def _kinds(t, depth=2):
+        return (t[0],) + (tuple(Renderer._kinds(k, depth - 1) for k in t[1]) if depth else ())
+
+    def layout(self, t):
+        key = self._kinds(t)
+        if key not in self.cache:
+            self.cache[key] = self.PR.layout(t[0], t)
+        return self.cache[key]
+
+    @staticmethod
+    def _at(t, path):
+        for i in (path if isinstance(path, tuple) else (path,)):
+            t = t[1][i]
+        return t
+
+    def render(self, t, full=False):
+        kind, kids, nm = t
+        if kind in ("IDENTIFIER", "BINDER"):
+            return nm
+        if kind == "CONSTANT" and nm is not None:
+            return nm                   # an integer literal, written as the digits (R-DBL / R-PRSTRING: other constants)
+        ly = self.layout(t)
+        if ly is None:
+            raise ParseError("expression_t::print has no case for %s" % kind)
+        if kind in ("FORALL", "EXISTS", "SUM"):
+            # keyword '(' id ':' type ')' body  - the type piece is rendered as `int` (see R-PRTEXT)
+            kw = {"FORALL": "forall", "EXISTS": "exists", "SUM": "sum"}[kind]
+            body_mode = [m for i, m in ly.children() if i == 1]
+            return "%s (%s : int) %s" % (kw, kids[0][2], self.child(kids[1], kind, body_mode[0] if body_mode else "raw", full))
+        if kind == "FUN_CALL":
+            return "%s(%s)" % (self.child(kids[0], kind, "raw", full), self.child(kids[1], kind, "raw", full))
+        out = []
+        for it in ly.items:
+            if it[0] == "tok":
+                out.append(it[1])
+            elif it[0] == "child":
+                try:
+                    c = self._at(t, it[1])
+                except IndexError:
+                    raise ParseError("print(%s) reads child %s, which the tree does not have" % (kind, it[1]))
+                out.append(self.child(c, kind, it[2], full))
+            elif it[0] == "name":
+                out.append(nm or "x")
+            else:
+                raise ParseError("layout of %s is not renderable" % kind)
+        return "".join(out)
+
+    def child(self, c, pkind, mode, full):
+        s = self.render(c, full)
+        if c[0] in ("IDENTIFIER", "BINDER"):
+            return s
+        if full:
+            return "(" + s + ")"
+        mode, _, thr = mode.partition("@")
+        prec = self.PR.prec
+        pp, cp = prec.get(pkind), prec.get(c[0])
+        if thr:
+            pp = _threshold_value(thr, pp, prec) if (pp is not None or "parent" not in thr) else None
+        if mode == "raw" or pp is None or cp is None:
+            return s
+        if mode == "strict":
+            return "(" + s + ")" if pp > cp else s
+        return "(" + s + ")" if pp >= cp else s
 
 
 # ------------------------------------------------------------------------------- the rule
@@ -485,6 +737,7 @@ def run(chk, F, G):
         return sizes.get(k)
 
     counter = itertools.count()
+    RD = Renderer(PR)
 
     def make(kind, sub=None):
         """Tree (kind, children) with fresh atoms; sub = {position: tree}."""
@@ -500,46 +753,7 @@ def run(chk, F, G):
         return (kind, kids, None)
 
     def render(t, full):
-        kind, kids, nm = t
-        if kind == "IDENTIFIER":
-            return nm
-        if kind == "BINDER":
-            return nm
-        ly = lay[kind]
-        out = []
-        if kind in ("FORALL", "EXISTS", "SUM"):
-            # keyword '(' id ':' type ')' body  - the type piece is rendered as `int` (see R-PRTEXT)
-            kw = {"FORALL": "forall", "EXISTS": "exists", "SUM": "sum"}[kind]
-            body_mode = [m for i, m in ly.children() if i == 1]
-            return "%s (%s : int) %s" % (kw, kids[0][2], child(kids[1], kind, body_mode[0] if body_mode else "raw", full))
-        if kind == "FUN_CALL":
-            return "%s(%s)" % (child(kids[0], kind, "raw", full), child(kids[1], kind, "raw", full))
-        for it in ly.items:
-            if it[0] == "tok":
-                out.append(it[1])
-            elif it[0] == "child":
-                out.append(child(kids[it[1]], kind, it[2], full))
-            elif it[0] == "name":
-                out.append(nm or "x")
-            else:
-                raise ParseError("layout of %s is not renderable" % kind)
-        return "".join(out)
-
-    def child(c, pkind, mode, full):
-        s = render(c, full)
-        if c[0] in ("IDENTIFIER", "BINDER"):
-            return s
-        if full:
-            return "(" + s + ")"
-        mode, _, thr = mode.partition("@")
-        pp, cp = PR.prec.get(pkind), PR.prec.get(c[0])
-        if thr and pp is not None:
-            pp = _threshold_value(thr, pp, PR.prec)
-        if mode == "raw" or pp is None or cp is None:
-            return s
-        if mode == "strict":
-            return "(" + s + ")" if pp > cp else s
-        return "(" + s + ")" if pp >= cp else s
+        return RD.render(t, full)
 
     def parse_shape(text):
         toks = tz.tokens(text)
@@ -603,6 +817,9 @@ def run(chk, F, G):
 
     ntriples = 0
     results = {}
+    neg_literal = next((lx for lx, tok in tz.special_num.items()
+                        if any("T_MINUS" in r.rhs and tok in r.rhs and any(c.name == "expr_nat" for c in r.calls)
+                               for r in G.rules)), None)
     for P in frag:
         if P in SKIP_PARENTS or P == "IDENTIFIER":
             continue
@@ -610,12 +827,18 @@ def run(chk, F, G):
         positions = [i for i, m in lay[P].children()] if P not in ("FORALL", "EXISTS", "SUM", "FUN_CALL") else \
             ([1] if P != "FUN_CALL" else [0, 1])
         for i in positions:
-            for C in frag:
+            for C in list(frag) + ["CONSTANT<0"]:
                 if C == "IDENTIFIER":
                     continue
-                if not admissible(P, i, C):
+                if C == "CONSTANT<0":
+                    # the one negative literal the grammar builds: T_MINUS T_POS_NEG_MAX -> expr_nat(INT_MIN)
+                    if not neg_literal or P in ("FORALL", "EXISTS", "SUM", "FUN_CALL") or not admissible(P, i, "PLUS"):
+                        continue
+                    t = make(P, {i: ("CONSTANT", [], "-" + neg_literal)})
+                elif not admissible(P, i, C):
                     continue
-                t = make(P, {i: make(C)})
+                else:
+                    t = make(P, {i: make(C)})
                 try:
                     smin, sfull = render(t, False), render(t, True)
                 except ParseError as e:
@@ -631,7 +854,8 @@ def run(chk, F, G):
                     why = "re-parses with a different grouping" if not ok else ""
                 except ParseError as e:
                     ok, why = False, "does not re-parse (%s)" % e
-                grp = ("prec%s" % PR.prec.get(P), i, modes.get(i, "raw"), "prec%s" % PR.prec.get(C))
+                grp = ("prec%s" % PR.prec.get(P), i, modes.get(i, "raw"),
+                       "prec%s" % PR.prec.get(C) if C != "CONSTANT<0" else "negative literal")
                 results.setdefault(grp, []).append((P, C, ok, smin, sfull, why))
     for grp, lst in sorted(results.items(), key=str):
         oks = {x[2] for x in lst}
@@ -1029,3 +1253,87 @@ def run_strquote(chk, F, rid="R-PRSTRING"):
            "expression_t::print writes a quote character itself right before printing a child (%s): a string constant "
            "child prints its own quotes, so the text gets two pairs" % "; ".join(double[:2]),
            "%s:%s" % (pr["file"], pr["line"]))
+
+
+# ------------------------------------------------------------------------------- R-PRALTSYN
+def _switch_groups(sw):
+    """[(labels, statements)] of a switch: consecutive case labels share the statements up to the next label group"""
+    groups = []
+    for s in sw["body"].get("s", []):
+        labels = []
+        while isinstance(s, dict) and s.get("k") in ("case", "default"):
+            if s["k"] == "case":
+                v = s.get("v", {})
+                labels.append(v.get("name") if v.get("k") == "ref" else None)
+            else:
+                labels.append("default")
+            s = s.get("s")
+        if labels:
+            groups.append((labels, [s] if s is not None else []))
+        elif groups:
+            groups[-1][1].append(s)
+    return groups
+
+
+def run_altsyntax(chk, F, rid="R-PRALTSYN"):
+    """A kind with a second concrete syntax: ExpressionBuilder creates nodes of kind K in its own callback (expr_array
+    for ARRAY) and, in another callback, under a case of a switch over the *type* of an operand (expr_call_end creates
+    ARRAY nodes when the callee's type is PROCESS_SET: the lookup `P(e1, e2)`).  The parser builds such a tree from that
+    second syntax only, so expression_t::print has to tell the two apart: its code for K must test the same type kind."""
+    from ..inline import KindSlicer
+    chk.rule(rid, "for every expression kind K that an ExpressionBuilder callback creates under a case of a switch over "
+                  "an operand's type kind T, while another callback creates K unconditionally: the print code for K "
+                  "tests for T (otherwise the tree is printed in the syntax of the other callback)")
+    kind_names = {v["name"] for v in F.enum("UTAP::Constants::kind_t")["values"]}
+    plain = {}          # K -> callbacks creating it outside any type switch
+    guarded = []        # (K, T, callback, line)
+    n_fns = 0
+    for fn in F.functions.values():
+        if not fn.get("q", "").startswith("UTAP::ExpressionBuilder::") or fn.get("body") is None:
+            continue
+        n_fns += 1
+        in_switch = set()
+        for sw in walk(fn["body"]):
+            if sw.get("k") != "switch":
+                continue
+            c = sw.get("c") or {}
+            while c.get("k") in ("cast", "paren"):
+                c = c["e"]
+            if not (c.get("k") == "call" and c.get("name") == "get_kind" and "type_t" in (c.get("cls") or "")):
+                continue
+            for labels, stmts in _switch_groups(sw):
+                for x in calls({"k": "block", "s": stmts}):
+                    if (x.get("fn") or "").startswith("UTAP::expression_t::create_") and x.get("args"):
+                        a0 = x["args"][0]
+                        if a0.get("k") == "ref" and a0.get("dk") == "enumerator" and a0.get("name") in kind_names:
+                            in_switch.add(id(x))
+                            for lb in labels:
+                                if lb and lb != "default":
+                                    guarded.append((a0["name"], lb, fn["name"], x.get("l")))
+        for x in calls(fn["body"]):
+            if id(x) in in_switch:
+                continue
+            if (x.get("fn") or "").startswith("UTAP::expression_t::create_") and x.get("args"):
+                a0 = x["args"][0]
+                if a0.get("k") == "ref" and a0.get("dk") == "enumerator" and a0.get("name") in kind_names:
+                    plain.setdefault(a0["name"], set()).add(fn["name"])
+    if n_fns < 40:
+        raise AnalysisBroken("%s: only %d ExpressionBuilder functions in the facts" % (rid, n_fns))
+    pr = F.fn("UTAP::expression_t::print")
+    ps = KindSlicer(F, pr, subject="this", stop=("print",), expand_helpers=True)
+    n = 0
+    for K, Tk, cb, line in sorted(set(guarded)):
+        others = sorted(plain.get(K, set()) - {cb})
+        if not others:
+            continue            # the only syntax of K
+        n += 1
+        sl = ps.slice(K)
+        tested = {x["name"] for x in walk(sl) if x.get("k") == "ref" and x.get("dk") == "enumerator"}
+        chk.ob(rid, "%s|%s|%s" % (K, Tk, cb), Tk in tested,
+               "ExpressionBuilder::%s creates %s nodes when the operand's type is %s (a second concrete syntax next to "
+               "%s); expression_t::print's code for %s never tests for %s, so it prints such a tree in the other syntax, "
+               "from which the parser does not build it" % (cb, K, Tk, "/".join(others), K, Tk),
+               "%s:%s" % (pr["file"], pr["line"]))
+    if n < 1:
+        raise AnalysisBroken("%s: no kind with a type-guarded second syntax found (expected ARRAY under PROCESS_SET)" % rid)
+    chk.analysed[rid] = {"builder_functions": n_fns, "guarded_constructions": len(set(guarded)), "instances": n}
